@@ -175,6 +175,8 @@ class Case:
             if timers:
                 k = r.choice(timers)
                 follow = " ; update %d" % k if in_cb_of is not None else "\nupdate %d" % k
+                if r.random() < 0.15:       # a deadline that cannot be represented: the timer is parked
+                    return "setdeadline %d none" % k + (follow if r.random() < 0.9 else "")
                 return "setdeadline %d %d" % (k, self.fresh_deadline(-1, 5)) + (follow if r.random() < 0.9 else "")
         if x < 0.6:
             gens = [k for k in self.kept if self.kind[k] == "gen" and k != in_cb_of]
